@@ -554,3 +554,109 @@ def kfifo(ctx):
         ctx.check(ok, rid3, B + "kirsch_bounded_kfifo_queue#size<=2^bits", "constructor rejects sizes above %s <= 2^%d" % (lim, bits),
                   "marked_idx stores the ring index in %d bits but the constructor accepts any k*num_segments (%s): for larger queues head/tail indexes are truncated and "
                   "push/pop never terminate" % (bits, "no throwing size check" if not thr else "limit %s" % lim), "xenium/kirsch_bounded_kfifo_queue.hpp", None)
+
+
+# ---------------------------------------------------------------------------------------------------------------
+def _reaching_defs(fn, var, at_nid):
+    """nearest definitions of local `var` on every backward path from event at_nid: list of ('def', rhs node) / ('cas', field) / ('entry', None)"""
+    pos = fn.pos()
+    if at_nid not in pos:
+        return []
+    tb, ti = pos[at_nid]
+
+    def defs_in_block(b, upto):
+        out = None
+        elems = fn.blocks[b]["elems"]
+        rng = range(len(elems)) if upto is None else range(upto)
+        for i in rng:
+            e = elems[i]
+            n = fn.nodes[e]
+            if n["k"] == "decl":
+                for v in n["vars"]:
+                    if v["name"] == var:
+                        out = ("def", v.get("init"))
+            elif n["k"] == "bin" and n["op"] == "=":
+                c = fn.kids(e)
+                if fn.nodes[c[0]]["k"] == "ref" and fn.nodes[c[0]].get("name") == var:
+                    out = ("def", c[1])
+            elif n["k"] == "call":
+                c = fn.kids(e)
+                if n.get("callee", "").endswith("operator=") and n.get("member") and c and fn.nodes[c[0]]["k"] == "ref" and fn.nodes[c[0]].get("name") == var:
+                    out = ("def", c[1] if len(c) > 1 else None)
+                a = fn.atomic(e)
+                if a and a["kind"] == "cas" and len(c) > 1 and fn.nodes[c[1]]["k"] == "ref" and fn.nodes[c[1]].get("name") == var and e != at_nid:
+                    out = ("cas", a["field"])
+        return out
+    res = []
+    d = defs_in_block(tb, ti)
+    if d:
+        return [d]
+    seen = set()
+    stack = list(fn.preds()[tb])
+    while stack:
+        b = stack.pop()
+        if b in seen:
+            continue
+        seen.add(b)
+        d = defs_in_block(b, None)
+        if d:
+            res.append(d)
+            continue
+        ps = fn.preds()[b]
+        if not ps and b == fn.entry:
+            res.append(("entry", None))
+        stack.extend(ps)
+    return res
+
+
+def swing_cas_expected(ctx):
+    rid = "Q.swing-expected"
+    ctx.rule(rid, "every CAS that swings a queue's _head/_tail expects a value derived from that same field (the guard acquired from it, a load of it, "
+                  "or the refresh by a failed CAS on it) on every path: otherwise the swing - in particular the helping swing that lets other threads make "
+                  "progress when the owner of a half-finished push is stalled - can never succeed")
+    sites = {
+        X + "michael_scott_queue::push": ("_tail",), X + "michael_scott_queue::pop_node": ("_tail", "_head"),
+        X + "ramalhete_queue::push": ("_tail",), X + "ramalhete_queue::pop": ("_head",),
+        X + "nikolaev_queue::push": ("_tail",), X + "nikolaev_queue::do_pop": ("_head",),
+    }
+    for pat, fields in sites.items():
+        for fn in flow._shapes(ctx, pat):
+            for fld in fields:
+                cas = [e for e in flow.find(fn, {"k": "call", "kind": "cas"}) if fn.atomic(e)["field"].endswith("::" + fld)]
+                # variables derived from the field: guards acquired from it, values loaded from it
+                derived = set()
+                for b, i, e, n in fn.events():
+                    if n["k"] == "call":
+                        leaf = n.get("callee", "").split("::")[-1]
+                        c = fn.kids(e)
+                        if leaf == "acquire" and len(c) >= 2 and fn.field_of(c[1]).endswith("::" + fld) and fn.nodes[c[0]]["k"] == "ref":
+                            derived.add(fn.nodes[c[0]]["name"])
+                    if n["k"] == "decl":
+                        for v in n["vars"]:
+                            if "init" in v and re.search(r"\b%s\.(load|acquire)|acquire_guard\(this->%s" % (fld, fld), fn.expr(v["init"])):
+                                derived.add(v["name"])
+                for c_ in cas:
+                    exp = fn.kids(c_)[1]
+                    en = fn.nodes[exp]
+                    inst = "%s#%s-cas@%s" % (pat, fld, fn.expr(fn.kids(c_)[2])[:24])
+                    if en["k"] != "ref" or en.get("dk") != "local":
+                        ctx.ok(rid, inst, "expected value is %s" % fn.expr(exp), fn.where(c_), nontrivial=False, fn=fn)
+                        continue
+                    rds = _reaching_defs(fn, en["name"], c_)
+                    bad = None
+                    for kind, rhs in rds:
+                        if kind == "cas":
+                            if not rhs.endswith("::" + fld):
+                                bad = "refreshed by a failed CAS on another field (%s)" % rhs
+                        elif kind == "entry" or rhs is None:
+                            bad = "uninitialised / default value"
+                        else:
+                            names = {fn.nodes[x].get("name") for x in fn.subtree(rhs) if fn.nodes[x]["k"] == "ref"}
+                            if not (names & derived) and not re.search(r"\b%s\.(load|exchange)\(" % fld, fn.expr(rhs)):
+                                bad = "defined as %s, which is not derived from %s" % (fn.expr(rhs), fld)
+                        if bad:
+                            break
+                    ctx.check(bad is None and bool(rds), rid, inst, "expected value derived from %s on all %d reaching definitions" % (fld, len(rds)),
+                              "the CAS on %s at line %d expects '%s', which on some path is %s: this swing can never succeed; if it is the helping swing, every other "
+                              "thread spins until the stalled owner finishes (not lock-free), and _%s lags forever" % (fld, fn.nodes[c_]["l"], en["name"], bad, fld.strip("_")),
+                              fn.where(c_), fn=fn)
